@@ -14,6 +14,9 @@
 #include <tao/pegtl/contrib/rep_one_min_max.hpp>
 #include <tao/pegtl/contrib/uint16.hpp>
 #include <tao/pegtl/contrib/uint32.hpp>
+#include <tao/pegtl/contrib/uint64.hpp>
+#include <tao/pegtl/contrib/utf16.hpp>
+#include <tao/pegtl/contrib/utf32.hpp>
 #include <tao/pegtl/contrib/uint8.hpp>
 
 #include "optable.hpp"
